@@ -30,8 +30,21 @@ Inductive uop :=
 | MNeg | MAbs | MInv | MPos | MToBool | MAsU | MAsS | MAsBV | MMsb | MLsb | MToInt | MFromIntU | MFromIntS
 | MResize (tw zeros : N) | MMsbN (n : Z) | MLsbN (n : Z) | MIndex (i : Z) | MSlice (hi lo : Z) | MCtor (t : oty).
 
-(** which rendering of the Python code: [Coded] = the pinned tree, [Fixed] = with the proposed C09 patches *)
+(** per-defect switches.  Each of the four C09 defects of the round-0 tree has a two-valued switch:
+    [Coded] = the method as it was coded in the round-0 tree, [Fixed] = with the corresponding patch
+    (/verif/seeded/_proposed_fixes/C09_*.diff).  [current] is the rendering of the CURRENT tree. *)
 Inductive mode := Coded | Fixed.
+
+Record cfg := {
+  k_rmul : mode;      (* Unsigned.__rmul__: lhs = int(rhs)  ->  int(lhs)                        (fix cdec138) *)
+  k_sub : mode;       (* sub negated a narrower right operand at its own width                 (fix 648268b) *)
+  k_div : mode;       (* truncdiv / rem through float division int(lhs / rhs) -> exact integers (fix 54fd6e4) *)
+  k_mulrange : mode   (* range assertion on an int factor of __mul__/__rmul__: NOT applied (upstream tests fix the
+                         width of vector * out-of-range int), the disagreement with numeric_std is a known finding *)
+}.
+Definition current : cfg := {| k_rmul := Fixed; k_sub := Fixed; k_div := Fixed; k_mulrange := Coded |}.
+Definition pinned : cfg := {| k_rmul := Coded; k_sub := Coded; k_div := Coded; k_mulrange := Coded |}.
+Definition patched : cfg := {| k_rmul := Fixed; k_sub := Fixed; k_div := Fixed; k_mulrange := Fixed |}.
 
 Definition oty_eqb (a b : oty) : bool :=
   match a, b with
@@ -144,11 +157,11 @@ Definition py_sub (m : mode) (a b : operand) : pres :=
   | _, _ => NoImpl
   end.
 
-(** [Fixed]: an int factor must be representable at the vector's width (numeric_std converts it to that width) *)
+(** [k_mulrange = Fixed]: an int factor must be representable at the vector's width (numeric_std converts it to that width) *)
 Definition int_fits_u (w : N) (n : Z) : bool := (0 <=? n) && (n <? pow2 w).
 Definition int_fits_s (w : N) (n : Z) : bool := (- pow2 (w - 1) <=? n) && (n <? pow2 (w - 1)).
 
-Definition py_mul (m : mode) (a b : operand) : pres :=
+Definition py_mul (mr m : mode) (a b : operand) : pres :=
   let '(ta, va) := a in let '(tb, vb) := b in
   match ta, tb with
   | TU w, TU w2 => mkUv (w + w2) (va * vb)
@@ -161,8 +174,10 @@ Definition py_mul (m : mode) (a b : operand) : pres :=
                  | Fixed => if int_fits_s w vb then mkSv (w + w) (va * vb) else Reject end
   | TInt, (TInt | TPy) => Value TInt (va * vb)
   | (TInt | TPy), TU w =>
-      match m with Coded => mkUv (w + w) (vb * vb)              (* __rmul__: lhs = int(rhs) *)
-                 | Fixed => if int_fits_u w va then mkUv (w + w) (va * vb) else Reject end
+      let prod := match mr with Coded => vb * vb                 (* __rmul__: lhs = int(rhs) *)
+                              | Fixed => va * vb end in
+      match m with Coded => mkUv (w + w) prod
+                 | Fixed => if int_fits_u w va then mkUv (w + w) prod else Reject end
   | (TInt | TPy), TS w =>
       match m with Coded => mkSv (w + w) (va * vb)
                  | Fixed => if int_fits_s w va then mkSv (w + w) (va * vb) else Reject end
@@ -288,15 +303,15 @@ Definition py_cmp (op : binop) (a b : operand) : pres :=
   | _, _ => if iseq then ident else NoImpl
   end.
 
-Definition py_bin (m : mode) (op : bop) (a b : operand) : pres :=
+Definition py_bin (c : cfg) (op : bop) (a b : operand) : pres :=
   match op with
   | PAdd => py_add a b
-  | PSub => py_sub m a b
-  | PMul => py_mul m a b
-  | PFloorDiv => py_floordiv m a b
-  | PTruncDiv => py_truncdiv m a b
+  | PSub => py_sub (k_sub c) a b
+  | PMul => py_mul (k_rmul c) (k_mulrange c) a b
+  | PFloorDiv => py_floordiv (k_div c) a b
+  | PTruncDiv => py_truncdiv (k_div c) a b
   | PMod => py_mod a b
-  | PRem => py_rem m a b
+  | PRem => py_rem (k_div c) a b
   | PShl => py_shl a b
   | PShr => py_shr a b
   | PAnd => py_logic OAnd a b
@@ -536,7 +551,7 @@ Inductive ccase :=
 | CU (op : uop) (a : operand) (r : pres).
 
 (** the model predicts the recorded result (anything is accepted where the model says [Inexact]) *)
-Definition model_ok (m : mode) (c : ccase) : bool :=
+Definition model_ok (m : cfg) (c : ccase) : bool :=
   match c with
   | CB op a b r => match py_bin m op a b with Inexact => true | p => pres_eqb p r end
   | CU op a r => match py_un op a with Inexact => true | p => pres_eqb p r end
